@@ -32,9 +32,11 @@ def params_for(tier, seed):
     if tier == "quick":
         extra = rnd.sample(["s255", "s256", "s2e64", "s2e159"], 2)
         serials = [c for c in ALL_CLASSES if c in ("z0", "s1") or c in extra]
-        return dict(owners=["A", "B"], serials=serials, bodies=2, max_ops=4, page_sizes=[0, 1, 2],
+        return dict(owners=["A", "B"], serials=serials, bodies=2, foreign=[rnd.choice(serials)], max_ops=4,
+                    page_sizes=[0, 1, 2],
                     queries="new", n_paths=30, path_len=14, n_deliver=8, chunks=12)
-    return dict(owners=["A", "B"], serials=list(ALL_CLASSES), bodies=2, max_ops=5, page_sizes=[0, 1, 2, 3],
+    return dict(owners=["A", "B"], serials=list(ALL_CLASSES), bodies=2, foreign=[rnd.choice(ALL_CLASSES)], max_ops=5,
+                page_sizes=[0, 1, 2, 3],
                 queries="new", n_paths=100, path_len=28, n_deliver=40, chunks=16)
 
 
@@ -47,7 +49,10 @@ def make_cfg(base_name, p, impl=None, max_ops=None):
     text = open(os.path.join(SPEC_DIR, base_name)).read()
     text = re.sub(r"Owners = \{[^}]*\}", "Owners = " + tla_set(p["owners"]), text)
     text = re.sub(r"Serials = \{[^}]*\}", "Serials = " + tla_set(p["serials"]), text)
-    text = re.sub(r"Bodies = \{[^}]*\}", "Bodies = " + tla_set(list(range(1, p["bodies"] + 1))), text)
+    fb = p["bodies"] + 1      # the not-self-issued body (subject = owner, issuer = another owner)
+    text = re.sub(r"\bBodies = \{[^}]*\}", "Bodies = " + tla_set(list(range(1, fb + 1))), text)
+    text = re.sub(r"ForeignBodies = \{[^}]*\}", "ForeignBodies = " + tla_set([fb]), text)
+    text = re.sub(r"ForeignSerials = \{[^}]*\}", "ForeignSerials = " + tla_set(p.get("foreign", [])), text)
     text = re.sub(r"PageSizes = \{[^}]*\}", "PageSizes = " + tla_set(p["page_sizes"]), text)
     if impl is not None:
         text = re.sub(r'Impl = "[a-z]*"', 'Impl = "%s"' % impl, text)
@@ -65,7 +70,7 @@ def keys_module(keyorder):
 
 def vh_args(p):
     return ["--owners", ",".join(p["owners"]), "--serials", ",".join(p["serials"]), "--bodies", str(p["bodies"]),
-            "--pagesizes", ",".join(str(x) for x in p["page_sizes"])]
+            "--pagesizes", ",".join(str(x) for x in p["page_sizes"]), "--foreign", ",".join(p.get("foreign", []))]
 
 
 # ------------------------------------------------------------------------------------------------
@@ -107,6 +112,14 @@ def random_scripts(p, seed, n, length):
     """Longer linear scripts (mostly admissible transactions, some inadmissible) so that registries hold more
     certificates than a page: the bounded graph only reaches MaxOps of them."""
     rnd = random.Random(seed * 7919 + 17)
+    owners, fb = p["owners"], p["bodies"] + 1
+    issuer = {o: owners[(i + 1) % len(owners)] for i, o in enumerate(owners)}   # as `vh cert info` reports
+
+    def body(s):
+        # certificates of the foreign-issued classes are often the not-self-issued body
+        if s in p.get("foreign", []) and rnd.random() < 0.5:
+            return fb
+        return rnd.randint(1, p["bodies"])
     scripts = []
     for _ in range(n):
         reg = {}
@@ -119,18 +132,21 @@ def random_scripts(p, seed, n, length):
             valid = [k for k, v in reg.items() if v == "valid"]
             if roll < 0.55 and free:
                 o, s = rnd.choice(free)
-                a = dict(k="create", signer=o, mo=o, o=o, s=s, b=rnd.randint(1, p["bodies"]))
+                a = dict(k="create", signer=o, mo=o, o=o, s=s, b=body(s))
             elif roll < 0.75 and valid:
                 o, s = rnd.choice(valid)
                 a = dict(k="revoke", signer=o, mo="", o=o, s=s, b=0)
             elif roll < 0.85:
                 other = rnd.choice(p["owners"])
                 mo = rnd.choice([o, other])
-                a = dict(k="create", signer=other, mo=mo, o=o, s=s, b=rnd.randint(1, p["bodies"]))
+                a = dict(k="create", signer=other, mo=mo, o=o, s=s, b=body(s))
+                if a["b"] == fb and rnd.random() < 0.6:
+                    # the account in the ISSUER name submits, under its own name, the certificate that names o
+                    a.update(signer=issuer[o], mo=issuer[o])
             elif roll < 0.93:
                 a = dict(k="revoke", signer=rnd.choice(p["owners"]), mo="", o=o, s=s, b=0)
             else:
-                a = dict(k="create", signer=o, mo=o, o=o, s=s, b=rnd.randint(1, p["bodies"]))
+                a = dict(k="create", signer=o, mo=o, o=o, s=s, b=body(s))
             # bookkeeping of what the script intends (only to bias the generator; nothing is judged here)
             if a["k"] == "create" and a["signer"] == a["mo"] == a["o"] and (a["o"], a["s"]) not in reg:
                 reg[(a["o"], a["s"])] = "valid"
@@ -230,7 +246,8 @@ def describe_q(q):
 
 def describe_act(d):
     if d["ev"] == "create":
-        return "create(signer=%s,msg.owner=%s,cn=%s,serial=%s,body=%d)" % (d["signer"], d["mo"], d["o"], d["s"], d["b"])
+        return "create(signer=%s,msg.owner=%s,subject-cn=%s,issuer-cn=%s,serial=%s,body=%d)" % (
+            d["signer"], d["mo"], d["o"], d.get("iss", "?"), d["s"], d["b"])
     if d["ev"] == "revoke":
         return "revoke(signer=%s,id=%s/%s)" % (d["signer"], d["o"], d["s"])
     return d["ev"]
@@ -399,7 +416,8 @@ def second_config(seed):
     rnd = random.Random(seed * 31 + 5)
     extra = rnd.choice(["s255", "s256", "s2e64", "s2e159"])
     serials = [c for c in ALL_CLASSES if c in ("z0", "s1", extra)]
-    return dict(owners=["A", "B", "C"], serials=serials, bodies=2, max_ops=4, page_sizes=[0, 1, 2],
+    return dict(owners=["A", "B", "C"], serials=serials, bodies=2, foreign=[rnd.choice(serials)], max_ops=4,
+                page_sizes=[0, 1, 2],
                 queries="new", n_paths=40, path_len=24, n_deliver=0, chunks=8)
 
 
@@ -522,6 +540,8 @@ def explore(p, seed, vh, sdir, tag):
         "drift": drift, "walk_drift": walk_drift, "selftest": st, "lines": nlines,
         "config": {"owners": p["owners"], "serials": {s: DEC[s] for s in p["serials"]}, "max_ops": p["max_ops"],
                    "page_sizes": p["page_sizes"], "page_modes": ["key", "total", "offset"], "bodies": p["bodies"],
+                   "not_self_issued": {"body": p["bodies"] + 1, "serials": p.get("foreign", []),
+                                       "issuer_of": info.get("foreign_issuer_of")},
                    "keyorder": ["%s/%s" % k for k in keyorder]},
         "j1": {"distinct": j1.distinct, "generated": j1.generated, "depth": j1.depth, "wall_s": round(j1.wall_s, 1),
                "d4_variant_violates": j1b.violated, "asfound_variant_violates": j1c.violated},
